@@ -100,7 +100,11 @@ class Models:
                 c = c / rf.d.const_value()
                 if m == ():
                     c0 = c
-                elif len(m) == 1 and m[0][0] == N_ATOM and m[0][1] == (1, 0):
+                elif len(m) == 1 and m[0][1] == (1, 0) and v.kind in ("int", "bool") and \
+                        (m[0][0] == N_ATOM or getattr(self.st, "exp_symbol", m[0][0]) == m[0][0]):
+                    # one symbolic integer exponent per path (aliased to n)
+                    if m[0][0] != N_ATOM:
+                        self.st.exp_symbol = m[0][0]
                     c1 = c
                 else:
                     ok = False
@@ -213,7 +217,11 @@ class Models:
     def global_expr(self, module, name, expr, node):
         # directories and aliases, recognised by the shape of their initialiser
         if isinstance(expr, ast.Dict) and not expr.keys:
-            return GlobalMapV(name)
+            g = GlobalMapV(name)
+            ann = module.global_ann.get(name, "")
+            g.unit_values = "Unit]" in ann.replace(" ", "") or "Unit'" in ann
+            g.record_types = self.record_types(module, ann)
+            return g
         if isinstance(expr, ast.Call):
             f = expr.func
             base = f.value if isinstance(f, ast.Subscript) else f
@@ -608,6 +616,39 @@ class Models:
             return OpaqueV("tuple." + attr)
         I.unsupported(node, f"attribute {attr} of {obj!r}")
 
+    def record_types(self, module, ann: str):
+        """Element types of a mapping's tuple-valued records, from the repo's own type aliases."""
+        try:
+            e = ast.parse(ann, mode="eval").body
+        except SyntaxError:
+            return None
+        for _ in range(4):
+            if isinstance(e, ast.Name):
+                r = self.prog.resolve_global(module, e.id)
+                if r and r[0] == "expr":
+                    module, e = r[1], r[2]
+                    continue
+                return None
+            break
+        if isinstance(e, ast.Subscript) and isinstance(e.slice, ast.Tuple) and len(e.slice.elts) == 2:
+            v = e.slice.elts[1]
+            for _ in range(4):
+                if isinstance(v, ast.Name):
+                    r = self.prog.resolve_global(module, v.id)
+                    if r and r[0] == "expr":
+                        module, v = r[1], r[2]
+                        continue
+                    return None
+                break
+            if isinstance(v, ast.Subscript) and src_of(v.value) in ("Tuple", "tuple") and isinstance(v.slice, ast.Tuple):
+                out = []
+                for el in v.slice.elts:
+                    s_ = src_of(el)
+                    out.append("str" if s_ == "str" else "int" if s_ == "int" else
+                               "list" if s_.startswith(("List", "list")) else "?")
+                return out
+        return None
+
     def objfield_TableConverter(self, obj, attr, node):
         if attr == "_unit_map":
             g = GlobalMapV("convtable")
@@ -829,11 +870,28 @@ class Models:
                     o.key = key
                     return o
             I.raise_("KeyError", node)
-        if isinstance(key, StrV):
+        if isinstance(key, (StrV, OpaqueV)):
             c = I.choose(2, f"{g.name}[{key!r}]@{getattr(node, 'lineno', '?')}", ["KeyError", "found"])
             if c == 0:
                 I.raise_("KeyError", node)
             owner = getattr(g, "owner", None)
+            if owner is None and not getattr(g, "unit_values", False):
+                rt = getattr(g, "record_types", None)
+                if rt:
+                    out = []
+                    for i, t in enumerate(rt):
+                        if t == "str":
+                            sv = StrV(None, f"{g.name}.{i}")
+                            sv.nonempty = True
+                            out.append(sv)
+                        elif t == "int":
+                            out.append(Num(RF.atom(("rec", g.name, i)), "int"))
+                        elif t == "list":
+                            out.append(ListV(None, tag=f"{g.name}.{i}"))
+                        else:
+                            out.append(OpaqueV(f"{g.name}.{i}"))
+                    return TupleV(out)
+                return OpaqueV(f"record({g.name})")
             tid = st.tfind(owner.tid) if owner is not None else st.new_type()
             u = UnitV(st.new_unit(tid))
             u.from_symbol = key
